@@ -103,7 +103,7 @@ def _instances(targets, tier, first_only=False):
 # quick tier: designs that are compiled with non-default OPTIONS (bounds the number of (design, options) goldens)
 OPT_DESIGNS = ["name_collisions", "class_helper_objects", "prefix_named", "sync_flag_delay", "inline_entity",
                "comb_logic"]
-QUICK_SHARDS = {"hist": 6, "ixv": 4, "vxv": 3, "opt": 1, "hashseed": 1, "recompile": 1}
+QUICK_SHARDS = {"hist": 6, "ixv": 4, "vxv": 3, "opt": 1, "hashseed": 1, "recompile": 8}
 QUICK_STRIDE = {"ixv": 6, "vxv": 14}  # quick: every n-th ordered pair per victim (rotating); thorough: all pairs
 
 
@@ -113,7 +113,7 @@ def plan(tier):
     n_hyp, per, maxlen = (QUICK_SHARDS["hist"], 10, 8) if quick else (48, 60, 24)
     for i in range(n_hyp):
         shards.append({"kind": "hyp", "name": f"hist{i}", "examples": per, "maxlen": maxlen, "pool": i, "tier": tier})
-    for space, n_thorough in (("ixv", 24), ("vxv", 24), ("hashseed", 12), ("opt", 8), ("recompile", 4)):
+    for space, n_thorough in (("ixv", 24), ("vxv", 24), ("hashseed", 12), ("opt", 8), ("recompile", 10)):
         n = QUICK_SHARDS[space] if quick else n_thorough
         for i in range(n):
             shards.append({"kind": "enum", "name": f"{space}{i}", "space": space, "part": i, "parts": n, "tier": tier})
@@ -138,24 +138,31 @@ def _enumerate_recompile(shard):
     other small designs so that the heap layout differs from compile to compile: effects that depend on the
     allocation history (object addresses reused after a compilation) only show after many compilations."""
     quick = shard["tier"] == "quick"
-    designs = RECOMPILE_DESIGNS[:3] if quick else RECOMPILE_DESIGNS
-    rounds = [(30, 24)] if quick else [(50, 40), (70, 20)]
+    # whether addresses are reused depends on the heap layout of the PROCESS: the histories are spread over several
+    # shards (= fresh worker processes), one or two short histories each
+    designs = (RECOMPILE_DESIGNS[:2] + ["prefix_named"]) if quick else RECOMPILE_DESIGNS
+    rounds = [(40, 20), (30, 12)] if quick else [(60, 40), (80, 20)]
     k = 0
     for name in designs:
-        for vi in (range(1) if quick else range(min(2, len(D.variants(name))))):
+        for vi in range(min(2, len(D.variants(name)))):
             for back_to_back, mixed in rounds:
                 k += 1
                 if k % shard["parts"] != shard["part"]:
                     continue
                 ds = [_dspec(name, vi)] + [_dspec(f, 0) for f in RECOMPILE_FILLERS]
-                G = {"gc": True}  # before EVERY compile: the garbage of the previous compilation is freed
-                ops = [["c", 0, "Top", G]]
-                for i in range(back_to_back):  # the same allocations in the same order
-                    ops.append([("c", "a", "c", "f", "c")[i % 5], 0, "Top", G])
+                # gc before EVERY compile (the garbage of the previous compilation is freed) and a varying number
+                # of additional live objects, so that the freed addresses are handed out in shifted order
+                def G(i):
+                    return {"gc": True, "hold": i % (7 if back_to_back % 20 == 0 else 5)}
+
+                ops = [["c", 0, "Top", G(0)]]
+                for i in range(back_to_back):
+                    ops.append([("c", "a", "a", "c", "a", "f", "a")[i % 7] if i % 11 else "c", 0, "Top", G(i)])
                 for i in range(mixed):  # 0-2 other compilations in between
                     for j in range(i % 3):
-                        ops.append(["c", 1 + (i + j) % len(RECOMPILE_FILLERS), "Top", G])
-                    ops.append([("c", "c", "f", "a")[i % 4], 0, "Top", G])
+                        ops.append(["c", 1 + (i + j) % len(RECOMPILE_FILLERS), "Top", G(i + j)])
+                    # the last third without forced collection / held objects
+                    ops.append([("c", "a", "c", "a")[i % 4], 0, "Top"] + ([G(i + 5)] if i < 2 * mixed // 3 else []))
                 yield {"designs": ds, "ops": ops}
 
 
@@ -493,7 +500,7 @@ def _goldens(keys, threads=4):
 def _optkey(op):
     """canonical text of the compile options of an op ("" = default compile)"""
     if len(op) > 3 and op[3]:
-        opts = {k: v for k, v in op[3].items() if k != "gc"}  # "gc" is a history event, not a compile option
+        opts = {k: v for k, v in op[3].items() if k not in ("gc", "hold")}  # history events, not compile options
         return canon(opts) if opts else ""
     return ""
 
